@@ -3,7 +3,7 @@
     structs, monostate only inside variants) and values whose sequences have at most 32 elements (so that the
     repeat-collapsing of singular elements is not involved); the rest of the universe is tied by correspondence. *)
 From Coq Require Import List NArith ZArith Bool Lia.
-From BL Require Import Base.Bytes Mser.Types Mser.Encode Mser.EncodeProofs Mser.Tag Mser.Visit Mser.TagProofs.
+From BL Require Import Base.Bytes Mser.Types Mser.Encode Mser.EncodeProofs Mser.Tag Mser.Visit Mser.TagProofs Mser.EnumProofs.
 Import ListNotations.
 Local Open Scope N_scope.
 
@@ -17,6 +17,7 @@ Definition is_char (t : ty) : bool := match t with TArith AChar => true | _ => f
 Fixpoint callbacks_b (b : bool) (t : ty) (v : val) {struct v} : list cb :=
   match t, v with
   | TArith a, VRaw x => [CArith (atag a) x]
+  | TEnum n a es, VRaw x => [CEnum n (lookup a es (hex_Z (raw_to_Z a x))) (atag a) (hex_Z (raw_to_Z a x))]
   | TSeq _ e, VSeq vs =>
       if b && is_char e then [CSeqChars (map raw_of vs)]
       else [CSeqBegin (N.of_nat (length vs)) (tag e)] ++ concat (map (callbacks_b b e) vs) ++ [CSeqEnd]
@@ -57,7 +58,7 @@ Fixpoint plain (sp : bytes -> bytes -> bytes -> option (option (bytes * bytes)))
 Fixpoint simple (inv : bool) (t : ty) : bool :=
   match t with
   | TArith _ => true
-  | TEnum _ _ _ => false
+  | TEnum _ a _ => match a with ABool | AF32 | AF64 | AF80 => false | _ => true end
   | TSeq _ e => simple false e
   | TOpt e => simple false e
   | TTuple ts => forallb (simple false) ts
@@ -132,18 +133,6 @@ Proof.
 Qed.
 
 (** struct fields *)
-Lemma find_pos_app_notin l c r : ~ In c l -> find_pos (l ++ c :: r) c = length l.
-Proof.
-  induction l as [|x l IH]; intros H; cbn [app find_pos length].
-  - now rewrite N.eqb_refl.
-  - destruct (N.eqb_spec x c) as [->|Hne]; [exfalso; apply H; now left|]. f_equal. apply IH. intros Hin. apply H. now right.
-Qed.
-
-Lemma firstn_app_exact {A} (a c : list A) : firstn (length a) (a ++ c) = a.
-Proof. rewrite firstn_app, firstn_all, Nat.sub_diag, firstn_O. apply app_nil_r. Qed.
-Lemma skipn_app_exact {A} (a c : list A) : skipn (length a) (a ++ c) = c.
-Proof. rewrite skipn_app, skipn_all, Nat.sub_diag. reflexivity. Qed.
-
 Lemma tag_pop_label_spec label rest : ~ In 39 label -> tag_pop_label (96 :: label ++ 39 :: rest) = (label, rest).
 Proof.
   intros H. unfold tag_pop_label, drop. change (skipn 1 (96 :: label ++ 39 :: rest)) with (label ++ 39 :: rest). cbv zeta.
@@ -292,6 +281,9 @@ Proof.
     cbn [wt] in Hwt. apply N.ltb_lt in Hwt. cbn [tag spec_enc callbacks].
     assert (E : visit b sp (S f) full [atag a] (le_enc (awidth a) x ++ rest) = visit_arith (atag a) (le_enc (awidth a) x ++ rest)) by (destruct a; reflexivity).
     rewrite E. unfold visit_arith. rewrite arith_of_atag, take_n_le_enc, le_dec_enc by exact Hwt. reflexivity.
+  - (* adapted enum *)
+    cbn [wt] in Hwt. apply N.ltb_lt in Hwt. cbn [simple] in Hs. cbn [ty_ok] in Hok. apply andb_true_iff in Hok. destruct Hok as [Hn Hes].
+    cbn [spec_enc callbacks_b]. apply visit_enum_agrees; assumption.
   - (* sequence *)
     cbn [wt] in Hwt. apply andb_true_iff in Hwt. destruct Hwt as [Hwt _]. apply andb_true_iff in Hwt. destruct Hwt as [Hall Hlen].
     rewrite forallb_forall in Hall. apply N.ltb_lt in Hlen.
